@@ -5,6 +5,9 @@ import (
 	crand "crypto/rand"
 	"io"
 	"net"
+	"os"
+	"runtime/debug"
+	"strings"
 	"sync"
 	"time"
 
@@ -199,6 +202,7 @@ func (w *World) OpenPumped(clientID string) (*Sess, error) {
 			defer func() {
 				if r := recover(); r != nil {
 					s.Panic = r
+					notePanic(s, debug.Stack())
 					for _, c := range s.conns {
 						c.Close()
 					}
@@ -245,6 +249,7 @@ func (w *MyWorld) OpenPumped(clientID string) (*MySess, error) {
 					s.mu.Lock()
 					s.Panic = r
 					s.mu.Unlock()
+					notePanic(s, debug.Stack())
 					for _, c := range s.conns {
 						c.Close()
 					}
@@ -288,3 +293,52 @@ func (s *Sess) ErrCh() <-chan base.ProxyError { return s.errCh }
 
 // ErrCh is the channel the proxy goroutines report their terminal errors on.
 func (s *MySess) ErrCh() <-chan base.ProxyError { return s.errCh }
+
+// ---- where a proxy goroutine panicked ----
+
+var (
+	panicMu    sync.Mutex
+	panicSites = map[interface{}]string{}
+)
+
+// notePanic keeps, per session, the first function of /repo on the panicking goroutine's stack.
+func notePanic(sess interface{}, stack []byte) {
+	site := "unknown"
+	lines := strings.Split(string(stack), "\n")
+	after := false
+	for _, l := range lines {
+		if strings.HasPrefix(l, "panic(") {
+			after = true
+			continue
+		}
+		if after && strings.HasPrefix(l, "github.com/cossacklabs/acra/") {
+			site = strings.TrimPrefix(l, "github.com/cossacklabs/acra/")
+			if i := strings.LastIndexByte(site, '('); i > 0 {
+				site = site[:i]
+			}
+			break
+		}
+	}
+	if os.Getenv("VERIF_PANIC_STACK") != "" {
+		os.Stderr.Write(stack)
+	}
+	panicMu.Lock()
+	if _, ok := panicSites[sess]; !ok {
+		panicSites[sess] = site
+	}
+	panicMu.Unlock()
+}
+
+func takePanicSite(sess interface{}) string {
+	panicMu.Lock()
+	defer panicMu.Unlock()
+	s := panicSites[sess]
+	delete(panicSites, sess)
+	return s
+}
+
+// PanicSite names the function of /repo in which a proxy goroutine of this session panicked ("" if none did).
+func (s *Sess) PanicSite() string { return takePanicSite(s) }
+
+// PanicSite names the function of /repo in which a proxy goroutine of this session panicked ("" if none did).
+func (s *MySess) PanicSite() string { return takePanicSite(s) }
